@@ -1689,7 +1689,8 @@ def _t_eval(target, _t, scope):
             try:
                 cur = get(cur, arg)
             except Exception as e:
-                pae = PathAccessError.of(e, Path(_t), i // 2)
+                # (whatever a registered handler raises: the plain class)
+                pae = PathAccessError(e, Path(_t), i // 2)
         elif op in 'xX':
             nxt = []
             get_handler = scope[TargetRegistry].get_handler
